@@ -46,6 +46,7 @@ func runC03(c *an.Ctx) {
 	ruleX12(c)
 	ruleX13(c)
 	ruleX14(c)
+	ruleX15(c)
 }
 
 // ---------------------------------------------------------------------------
